@@ -515,3 +515,19 @@ package git
 //gvc:  requires nn: opts != nil
 //gvc:  sink setHEADCommit requires validated: opts.Mode == 3 || len(opts.SparseDirs) == 0 || opts.SkipSparseDirValidation || calls("treeContainsDirs") == 1
 //gvc:end
+
+// clearBlockingSymlinks (C26: no worktree operation writes through a symbolic
+// link into .git or out of the worktree). Whether something at the
+// destination has to make way is decided without following links: the
+// function looks at the path's components with Lstat only -- Stat answers for
+// the link's target, and for a dangling link it says "nothing there" while
+// the link is there and the write that follows would go through it -- and a
+// nil result means at least the final component was looked at.
+//gvc:func (*Worktree).clearBlockingSymlinks
+//gvc:  props C26
+//gvc:  theory int
+//gvc:  opt coarse
+//gvc:  opt frame args
+//gvc:  sink Stat requires nofollow: false
+//gvc:  ensures looked: result == nil ==> calls("Lstat") >= 1
+//gvc:end
